@@ -15,7 +15,9 @@ def pStatement (self : Self) : P Val := do
   else if inSet k ["GOTO", "BREAK", "CONTINUE", "RETURN"] then self .jumpStatement
   else if k == some "PPPRAGMA" || k == some "_PRAGMA" then self .pragmaDirective
   else if k == some "_STATIC_ASSERT" then do
-    pure (.list (← self .staticAssert))
+    match ← self .staticAssert with
+    | n :: _ => pure n
+    | [] => crash .index "_parse_static_assert()[0]"
   else
     -- `_parse_expression_statement`
     let expr ← if ← startsExpression then self .expression else pure Val.none
